@@ -12,7 +12,7 @@ mutual
 def Stmt.beq : Stmt → Stmt → Bool
   | .entry, .entry => true
   | .ifBlocked a, .ifBlocked b => beqList a b
-  | .fallback, .fallback => true
+  | .reject a, .reject b => a == b
   | .ret, .ret => true
   | .deferExit, .deferExit => true
   | .exitNow, .exitNow => true
@@ -27,32 +27,32 @@ def beqList : List Stmt → List Stmt → Bool
 end
 
 /-- echo: the error returned by `next(c)` is passed on but never traced -/
-def known_echo : Prog := ⟨"echo/middleware.go:SentinelMiddleware.func1.func1",
-  [.entry, .ifBlocked [.fallback, .ret], .deferExit, .callNext true false, .ret]⟩
+def known_echo : Prog := ⟨"echo/middleware.go:SentinelMiddleware.func1.func1", "echo", ["param"],
+  [.entry, .ifBlocked [.reject [["option"], ["JSON"]], .ret], .deferExit, .callNext true false, .ret]⟩
 /-- fiber: `return ctx.Next()` — the error is never traced -/
-def known_fiber : Prog := ⟨"fiber/middleware.go:SentinelMiddleware.func1",
-  [.entry, .ifBlocked [.fallback, .ret], .deferExit, .callNext true false, .ret]⟩
-/-- gear: the middleware returns (and the deferred Exit runs) before the handler is invoked -/
-def known_gear : Prog := ⟨"gear/middleware.go:SentinelMiddleware.func1",
-  [.entry, .ifBlocked [.fallback, .ret], .deferExit, .ret]⟩
+def known_fiber : Prog := ⟨"fiber/middleware.go:SentinelMiddleware.func1", "fiber", ["Next"],
+  [.entry, .ifBlocked [.reject [["option"], ["SendStatus"]], .ret], .deferExit, .callNext true false, .ret]⟩
+/-- gear: the middleware returns (and the deferred Exit runs) before gear goes on to the handler -/
+def known_gear : Prog := ⟨"gear/middleware.go:SentinelMiddleware.func1", "gear", [],
+  [.entry, .ifBlocked [.reject [["option"], ["End"]], .ret], .deferExit, .ret]⟩
 /-- kitex outlier arm: block result discarded, `defer entry.Exit()` and `entry.Context()` on a nil entry -/
-def known_kitex_outlier : Prog := ⟨"kitex/client.go:SentinelClientMiddleware.func1.func1:E",
+def known_kitex_outlier : Prog := ⟨"kitex/client.go:SentinelClientMiddleware.func1.func1:E", "kitex", ["param"],
   [.entry, .deferExit, .useEntry, .useEntry, .callNext true false, .ret]⟩
 /-- kratos outlier arm without client metadata -/
-def known_kratos_outlier : Prog := ⟨"kratos/client.go:SentinelClientMiddleware.func1.func1:EE",
+def known_kratos_outlier : Prog := ⟨"kratos/client.go:SentinelClientMiddleware.func1.func1:EE", "kratos", ["param"],
   [.entry, .deferExit, .callNext true false, .ret]⟩
 /-- kratos outlier arm with client metadata (`entry.Context()` on the nil entry as well) -/
-def known_kratos_outlier_md : Prog := ⟨"kratos/client.go:SentinelClientMiddleware.func1.func1:ET",
+def known_kratos_outlier_md : Prog := ⟨"kratos/client.go:SentinelClientMiddleware.func1.func1:ET", "kratos", ["param"],
   [.entry, .deferExit, .useEntry, .useEntry, .callNext true false, .ret]⟩
 /-- micro client `Call`, outlier arm (reproduced: nil-pointer panic reaches the caller of `Call`) -/
-def known_micro_call_outlier : Prog := ⟨"micro/client.go:clientWrapper.Call:E",
+def known_micro_call_outlier : Prog := ⟨"micro/client.go:clientWrapper.Call:E", "micro", ["embedded"],
   [.entry, .deferExit, .callNext true false, .ret]⟩
 /-- micro client `Stream`, outlier arm -/
-def known_micro_stream_outlier : Prog := ⟨"micro/client.go:clientWrapper.Stream:E",
+def known_micro_stream_outlier : Prog := ⟨"micro/client.go:clientWrapper.Stream:E", "micro", ["embedded"],
   [.entry, .deferExit, .callNext true false, .ret]⟩
 /-- micro `NewStreamWrapper`: exits at once, the stream is used afterwards -/
-def known_micro_stream_wrapper : Prog := ⟨"micro/server.go:NewStreamWrapper.func1",
-  [.entry, .ifBlocked [.fallback, .ret], .exitNow, .ret]⟩
+def known_micro_stream_wrapper : Prog := ⟨"micro/server.go:NewStreamWrapper.func1", "micro", [],
+  [.entry, .ifBlocked [.reject [["option"], ["Send"]], .ret], .exitNow, .ret]⟩
 
 def knownProgs : List Prog :=
   [known_echo, known_fiber, known_gear, known_kitex_outlier, known_kratos_outlier, known_kratos_outlier_md,
@@ -60,8 +60,8 @@ def knownProgs : List Prog :=
 
 def knownKeys : List String := knownProgs.map (·.key)
 
-/-- recorded finding: same key **and** same body as a recorded copy -/
-def isKnown (p : Prog) : Bool := knownProgs.any fun k => k.key == p.key && beqList k.body p.body
+/-- recorded finding: same key, framework, handler-call kinds **and** same body as a recorded copy -/
+def isKnown (p : Prog) : Bool := knownProgs.any fun k => k.key == p.key && k.fw == p.fw && k.nextVia == p.nextVia && beqList k.body p.body
 
 /-- a table row is fine when it conforms in all six scenarios or is a recorded finding -/
 def rowOk (p : Prog) : Bool := isKnown p || conformsAll p
